@@ -6,6 +6,8 @@ let suites : (string * (Sexp.t -> Sexp.t -> Verdict.t)) list = [
   "tm", S_sub.run_tm;
   "ret", S_ret.run;
   "queue", S_queue.run;
+  "wire", S_wire.run;
+  "wv", S_wire.run;
   "lim", S_comp.run_lim;
   "alias", S_comp.run_alias;
   "unack", S_comp.run_unack;
